@@ -146,14 +146,17 @@ class simplify_chained_calls(FuncADLNodeTransformer):
 
     def __init__(self):
         self._arg_stack = argument_stack()
-        self._names_reserved = False
+        self._visit_depth = 0
 
     def visit(self, node):
-        if not self._names_reserved:
-            # First (top level) call: the new argument names must be new for this query
-            self._names_reserved = True
+        if self._visit_depth == 0:
+            # Top level call, a new query: the new argument names must be new for this query
             reserve_arg_names(node)
-        return super().visit(node)
+        self._visit_depth += 1
+        try:
+            return super().visit(node)
+        finally:
+            self._visit_depth -= 1
 
     def visit_Lambda(self, node: ast.Lambda):
         """The arguments of a lambda hide anything of the same name that is being substituted,
